@@ -158,7 +158,8 @@ impl WriteAheadLog {
     }
 
     pub(crate) fn last_lsn(&self) -> Option<Lsn> {
-        self.header.last_lsn()
+        // LSN of the last record appended to the log as a whole, not to block zero.
+        self.header.metadata().wal_header.global_last_lsn
     }
 
     /// Runs the analysis phase of the ARIES recovery protocol.
